@@ -119,12 +119,12 @@ def valid_args(cls, only_required=False):
 
 
 # ------------------------------------------------------------------ reference: does a value of kind V satisfy a parameter of kind K?
-VALUE_KINDS = ['int', 'float', 'numtext', 'text', 'bool', 'list_num', 'list_text', 'dict', 'ref_data', 'ref_fuzzy', 'ref_missing', 'ref_bool_output', 'ref_no_output']
+VALUE_KINDS = ['int', 'float', 'numtext', 'text', 'bool', 'list_num', 'list_text', 'dict', 'empty_list', 'ref_data', 'ref_fuzzy', 'ref_unfuzzied', 'ref_missing', 'ref_bool_output', 'ref_no_output']
 
 
 NUMBERS = [0, 1.5, -2, 7]
-NUMTEXTS = ['1', '2.5', '1e3', '-0', ' 3 ']
-TEXTS = ['abc', '1x', '--1', 'a.b', 'True!']
+NUMTEXTS = ['1', '2.5', '1e3', '-0', ' 3 ', 'inf', '-Infinity', 'nan', '1e999']
+TEXTS = ['abc', '1x', '--1', 'a.b', 'True!', '']
 
 
 def make_value(ctx, vk):
@@ -146,7 +146,9 @@ def make_value(ctx, vk):
         return ['zz', 'yy']
     if vk == 'dict':
         return {'k': 'v'}
-    return {'ref_data': 'A', 'ref_fuzzy': 'F', 'ref_missing': 'Nope', 'ref_bool_output': 'PV', 'ref_no_output': 'W0'}[vk]
+    if vk == 'empty_list':
+        return []
+    return {'ref_data': 'A', 'ref_fuzzy': 'F', 'ref_unfuzzied': 'NF', 'ref_missing': 'Nope', 'ref_bool_output': 'PV', 'ref_no_output': 'W0'}[vk]
 
 
 def expect(pk, p, vk):
@@ -172,10 +174,12 @@ def expect(pk, p, vk):
     if pk == 'datatype':
         return PNV
     if pk == 'tuple':
-        return None if vk == 'dict' else PNV
+        return None if vk in ('dict', 'empty_list') else PNV
     if pk == 'list:number':
-        return None if vk == 'list_num' else PNV
+        return None if vk in ('list_num', 'empty_list') else PNV
     if pk == 'list:result':
+        if vk == 'empty_list':
+            return None
         if vk in ('list_text',):
             return {'ResultDoesNotExist'}
         if vk == 'list_num':
@@ -184,11 +188,11 @@ def expect(pk, p, vk):
     if pk == 'result':
         if vk in ('ref_missing', 'text', 'numtext'):
             return {'ResultDoesNotExist'}
-        if vk in ('int', 'float', 'bool', 'list_num', 'list_text', 'dict'):
+        if vk in ('int', 'float', 'bool', 'list_num', 'list_text', 'dict', 'empty_list'):
             return PNV
         need_fuzzy = p.is_fuzzy
         has_type = p.output_type is not None
-        if vk == 'ref_data':
+        if vk in ('ref_data', 'ref_unfuzzied'):
             return {'ResultNotFuzzy'} if need_fuzzy is True else None
         if vk == 'ref_fuzzy':
             return {'ResultIsFuzzy'} if need_fuzzy is False else None
@@ -215,6 +219,7 @@ def build_host(program, lib, target_cls, target_args, position, extra=None):
         ('B', lib['EEMSRead'], {'InFileName': DATA, 'InFieldName': 'B'}),
         ('F', lib['CvtToFuzzy'], {'InFieldName': 'A'}),
         ('F2', lib['CvtToFuzzy'], {'InFieldName': 'B', 'Direction': 'HighToLow'}),
+        ('NF', lib['CvtFromFuzzy'], {'InFieldName': 'F', 'TrueThreshold': 5, 'FalseThreshold': 1}),
         ('PV', lib['PrintVars'], {'InFieldNames': ['A']}),
         ('W0', lib['EEMSWrite'], {'OutFileName': OUT, 'OutFieldNames': ['A']}),
     ]
@@ -267,7 +272,7 @@ def harness(ctx, cfg):
     for c in lib.values():
         wrap(c)
     tcls = lib[cfg['target']]
-    params = [(n, p) for n, p in tcls.inputs.items() if n != 'Metadata']
+    params = [(n, p) for n, p in tcls.inputs.items()]
     position = ctx.choice('position', 2)
     faults = ['none', 'unknown-command', 'duplicate-result', 'undeclared-parameter', 'required-only']
     faults += ['missing:' + n for n, p in params if p.required]
